@@ -945,4 +945,6 @@ def run(chk, tier):
     prog = facts.programs()['cproc-qbe']
     chk.guard('C07.a', lambda: rule_parseinit(chk, prog, tier))
     chk.guard('C07.b', lambda: rule_emitdata(chk, prog, tier))
+    from props import c02
+    chk.guard('C07.d', lambda: c02.rule_initadd(chk, prog, tier, 'C07.d', bits=True))
     chk.guard('C07.c', lambda: rule_funcinit(chk, prog, tier))
